@@ -309,7 +309,9 @@ func lexStmt(l *lexer) stateFn {
 
 // lexString scans a run of non-separator characters
 func lexString(l *lexer) stateFn {
-	for !isTerminator(l.peek()) {
+	// The end of the input ends the string too: peek() keeps returning eof
+	// there, which is not a terminator, so the loop would never finish.
+	for r := l.peek(); r != eof && !isTerminator(r); r = l.peek() {
 		l.next()
 	}
 	l.emit(itemString)
